@@ -876,6 +876,9 @@ func r16CursorMovesByPage(c *core.Ctx, p *load.Program, tk string, fn *ssa.Funct
 				if ps0 != nil {
 					x = ps0.Resolve(x)
 				}
+				if sl, isSlice := x.(*ssa.Slice); isSlice && sl.Low != nil && sl.High != nil {
+					return "", false // len(x[lo:hi]) is hi - lo (linOfWith)
+				}
 				return fmt.Sprintf("len(%p)", x), true
 			}
 		}
